@@ -93,6 +93,12 @@ CLAIMED = {
     "C36": ("exploration",
             "Token worlds where users grant ICS-20 transfer authorizations (channel allocations, per-denomination limits incl. unbounded, receiver allow lists, memo lists) and grantees execute transfers through authz MsgExec exactly at / one above / one below the remaining limit, with the entire-balance sentinel, receivers on and off the list, allowed and other memos, channels without allocation, interleaved with ordinary traffic and relay faults. An accepted exec must be allowed by the grant-ledger model; after every block the stored remaining limits equal granted-minus-accepted, exhausted allocations/grants are gone, refused execs leave the grant unchanged.",
             "deterministic simulation: seeded grantee request sequences around limit boundaries, grant-ledger reference model compared every block", "8 C36"),
+    "C37": ("fault_enumeration",
+            "Accounts worlds: controller chain A, host chain B (host allow list per world: *, bank only, bank+authz, bank+staking); owners register interchain accounts (ordered/unordered), relayers run handshakes, accounts are funded, owners send batches of 1-4 messages (sends from the interchain account, sends of ANOTHER account's coins, sends above the balance at send time, delegations of stake the account lacks, authz execs without grant) with the failing/unauthorised message at every position; relayers deliver, duplicate, replay. Model: a batch executes iff every type is allowed, every signer is the interchain account of that (connection, port) and every message succeeds in order; then all bank effects apply, else none. The host's real bank diff and the ack must agree with the model.",
+            "deterministic simulation: batch shapes x failing positions x allow lists under relay faults, all-or-nothing bank-diff model", "8 C37"),
+    "C38": ("exploration",
+            "Same worlds with registrations, ordered channels closing on timeouts and re-registration, MsgSendTx signed by strangers, handshake steps started by the host side or with a wrong counterparty port. After every block: the active channel of a (connection, owner) changes only when the previous one is CLOSED; never two OPEN channels per owner; a reopened channel keeps ordering and metadata; the host's account address per (connection, port) never changes; stranger-signed MsgSendTx and foreign handshake steps are never accepted.",
+            "deterministic simulation: registration / timeout-close / reopen histories with stranger and host-side attempts, active-channel invariants", "8 C38"),
     "C41": ("exploration",
             "Token worlds with rate limits administered through the REAL gov module (add/update/reset/remove, binding 0-2% quotas on small-supply vouchers), transfers both ways with success/error acks, timeouts, duplicates, replays, clock jumps across hour boundaries. After every block the stored inflow/outflow/channel value of every rate limit equals a reference model (accepted in the current window minus undone in it, each packet at most once; error-ack receives net zero); accept/refuse agrees with the quota. Window resets are observed (isolated in empty blocks, accepted only as full resets).",
             "deterministic simulation: simulated clock + gov-driven administration + relay faults, rate-limit reference model compared every block", "8 C41"),
